@@ -1466,7 +1466,9 @@ class MSgate(Channel):
 
         s = np.sqrt(sf.hbar / 2)
         ancillae_val = backend.mb_squeeze_single_shot(*reg, r, phi, r_anc, eta_anc)
-        return ancillae_val / s
+        # the backend works with hbar = 2: a quadrature value scales with sqrt(hbar),
+        # as in MeasureHomodyne
+        return ancillae_val * s
 
 
 class PassiveChannel(Channel):
